@@ -1,6 +1,7 @@
 # Sizing and claim for C18 (failed operations leave target and arguments unchanged)
 SPEC = {
-    "quick": {"rc_cases": 20000, "rc_procs": 12},
+    "variants": {"": [], "uchar": ["-funsigned-char"]},   # the second build variant uses an unsigned plain char (-funsigned-char: the ARM / AArch64 / PowerPC default); in the quick tier it runs a reduced number of generated cases and no enumerators
+    "quick": {"rc_cases": 20000, "rc_procs": 12, "variant_cfg": {"uchar": {"rc_cases": 10000, "rc_procs": 4, "enum": False}}},
     "thorough": {"rc_cases": 100000, "rc_procs": 12, "fuzz_secs": 180, "fuzz_workers": 8},
     "assumptions": [
         "the property is conditional on the operation throwing one of the four named exception types; whether an input must be rejected is C02/C10/C15's business",
